@@ -28,27 +28,27 @@ Definition S3 : list split :=
 Definition S4 : list split :=
   [mkSplit 0 0 0 true; mkSplit 7 7 7 false; mkSplit 3 3 3 false; mkSplit 7 7 8 true]%N.
 
-Lemma round_S3 : wq_round wit_tol wit_n wit_idx wit_ws S3 = Ok (S4, 0).
+Lemma round_S3 : wq_round_g false wit_tol wit_n wit_idx wit_ws S3 = Ok (S4, 0).
 Proof. vm_compute. reflexivity. Qed.
-Lemma round_S4 : wq_round wit_tol wit_n wit_idx wit_ws S4 = Ok (S3, 0).
+Lemma round_S4 : wq_round_g false wit_tol wit_n wit_idx wit_ws S4 = Ok (S3, 0).
 Proof. vm_compute. reflexivity. Qed.
 
 (* the first three rounds lead from the initial state to S3, two splits settle *)
 Lemma prefix_rounds : forall fuel,
-  wq_loop wit_tol (3 + fuel) wit_n wit_idx wit_ws S0 4 = wq_loop wit_tol fuel wit_n wit_idx wit_ws S3 2.
+  wq_loop_g false wit_tol (3 + fuel) wit_n wit_idx wit_ws S0 4 = wq_loop_g false wit_tol fuel wit_n wit_idx wit_ws S3 2.
 Proof.
   intros fuel. change (3 + fuel) with (S (S (S fuel))).
-  cbn [wq_loop].
-  replace (wq_round wit_tol wit_n wit_idx wit_ws S0) with
+  cbn [wq_loop_g].
+  replace (wq_round_g false wit_tol wit_n wit_idx wit_ws S0) with
     (Ok ([mkSplit 0 0 1 false; mkSplit 3 3 3 false; mkSplit 4 4 4 false; mkSplit 6 4 8 false]%N, 0))
     by (vm_compute; reflexivity).
-  cbn [bind Nat.sub wq_loop].
-  replace (wq_round wit_tol wit_n wit_idx wit_ws
+  cbn [bind Nat.sub wq_loop_g].
+  replace (wq_round_g false wit_tol wit_n wit_idx wit_ws
              [mkSplit 0 0 1 false; mkSplit 3 3 3 false; mkSplit 4 4 4 false; mkSplit 6 4 8 false]%N) with
     (Ok ([mkSplit 0 0 0 true; mkSplit 4 4 4 false; mkSplit 3 3 3 false; mkSplit 7 6 8 false]%N, 1))
     by (vm_compute; reflexivity).
-  cbn [bind Nat.sub wq_loop].
-  replace (wq_round wit_tol wit_n wit_idx wit_ws
+  cbn [bind Nat.sub wq_loop_g].
+  replace (wq_round_g false wit_tol wit_n wit_idx wit_ws
              [mkSplit 0 0 0 true; mkSplit 4 4 4 false; mkSplit 3 3 3 false; mkSplit 7 6 8 false]%N) with
     (Ok (S3, 1)) by (vm_compute; reflexivity).
   cbn [bind Nat.sub]. reflexivity.
@@ -56,17 +56,17 @@ Qed.
 
 (* S3 <-> S4 for ever *)
 Lemma cycle_out_of_fuel : forall fuel,
-  wq_loop wit_tol fuel wit_n wit_idx wit_ws S3 2 = OutOfFuel
-  /\ wq_loop wit_tol fuel wit_n wit_idx wit_ws S4 2 = OutOfFuel.
+  wq_loop_g false wit_tol fuel wit_n wit_idx wit_ws S3 2 = OutOfFuel
+  /\ wq_loop_g false wit_tol fuel wit_n wit_idx wit_ws S4 2 = OutOfFuel.
 Proof.
   induction fuel as [|f [IH3 IH4]]; [split; reflexivity|].
-  split; cbn [wq_loop].
+  split; cbn [wq_loop_g].
   - rewrite round_S3. cbn [bind Nat.sub]. exact IH4.
   - rewrite round_S4. cbn [bind Nat.sub]. exact IH3.
 Qed.
 
 Theorem wq_loop_never_returns : forall fuel,
-  wq_loop wit_tol fuel wit_n wit_idx wit_ws S0 4 = OutOfFuel.
+  wq_loop_g false wit_tol fuel wit_n wit_idx wit_ws S0 4 = OutOfFuel.
 Proof.
   intros fuel. destruct fuel as [|[|[|f]]].
   - reflexivity.
@@ -77,20 +77,20 @@ Qed.
 
 (* the quantile search does not terminate on the witness: no amount of fuel suffices *)
 Theorem weighted_quantiles_nontermination : forall fuel,
-  weighted_quantiles wit_tol fuel wit_idx wit_ws wit_n = OutOfFuel.
+  weighted_quantiles_g false wit_tol fuel wit_idx wit_ws wit_n = OutOfFuel.
 Proof.
   intros fuel.
-  change (weighted_quantiles wit_tol fuel wit_idx wit_ws wit_n)
-    with (bind (wq_loop wit_tol fuel wit_n wit_idx wit_ws S0 4) (fun ss' => Ok (map s_pos ss'))).
+  change (weighted_quantiles_g false wit_tol fuel wit_idx wit_ws wit_n)
+    with (bind (wq_loop_g false wit_tol fuel wit_n wit_idx wit_ws S0 4) (fun ss' => Ok (map s_pos ss'))).
   rewrite (wq_loop_never_returns fuel). reflexivity.
 Qed.
 
 (* ... hence HilbertCurve::partition (given these curve indices) never returns *)
 Theorem hilbert_partition_nontermination : forall maxo order fuel p0,
   (order <= maxo)%N -> p0 <> [] ->
-  hilbert_partition wit_tol maxo order fuel wit_idx wit_ws wit_n p0 = OutOfFuel.
+  hilbert_partition_g false wit_tol maxo order fuel wit_idx wit_ws wit_n p0 = OutOfFuel.
 Proof.
-  intros maxo order fuel p0 Ho Hp. unfold hilbert_partition.
+  intros maxo order fuel p0 Ho Hp. unfold hilbert_partition_g.
   destruct (N.ltb_spec maxo order); [lia|]. destruct p0; [congruence|].
   rewrite weighted_quantiles_nontermination. reflexivity.
 Qed.
